@@ -80,21 +80,33 @@ func (b *Uint32SizedArray) Unmarshal(r io.Reader) error {
 	return readSizedArray(r, &size, &b.Data)
 }
 
-func makeSized[T any](size any) ([]T, error) {
+// sizeValue returns the array length that a size prefix of a supported type declares.
+func sizeValue(size any) (int64, error) {
 	switch s := size.(type) {
 	case *byte:
-		if *s == 0 {
-			return nil, nil
-		}
-		return make([]T, *s), nil
+		return int64(*s), nil
 	case *uint32:
-		if *s == 0 {
-			return nil, nil
-		}
-		return make([]T, *s), nil
+		return int64(*s), nil
 	default:
-		return nil, fmt.Errorf("unsupported array size type %T", size)
+		return 0, fmt.Errorf("unsupported array size type %T", size)
 	}
+}
+
+// readExactly reads exactly n bytes from r. It reads incrementally, so that the memory used is bounded by
+// the bytes actually available from r rather than by an untrusted declared size, and it fails on a short
+// read instead of leaving the remainder zero-filled. On error the bytes that could be read are returned.
+func readExactly(r io.Reader, n int64) ([]byte, error) {
+	if n == 0 {
+		return nil, nil
+	}
+	result, err := io.ReadAll(io.LimitReader(r, n))
+	if err != nil {
+		return result, err
+	}
+	if int64(len(result)) != n {
+		return result, fmt.Errorf("declared %d bytes but only %d are available: %w", n, len(result), io.ErrUnexpectedEOF)
+	}
+	return result, nil
 }
 
 // Uint32SizedArrayT represents a uint32 sized array of a given type, with elements that are
@@ -118,12 +130,16 @@ func (d *Uint32SizedArrayT[T]) Unmarshal(r io.Reader) error {
 		d.Array = nil
 		return nil
 	}
-	d.Array = make([]T, size)
-	for i := range d.Array {
-		d.Array[i] = d.Array[i].Create().(T)
-		if err := d.Array[i].Unmarshal(r); err != nil {
+	// Elements are appended as they are read so that memory use is bounded by the input actually
+	// present rather than by the untrusted declared count.
+	d.Array = nil
+	for i := uint32(0); i < size; i++ {
+		var zero T
+		elem := zero.Create().(T)
+		if err := elem.Unmarshal(r); err != nil {
 			return fmt.Errorf("failed to unmarshal %T element %d: %v", []T{}, i, err)
 		}
+		d.Array = append(d.Array, elem)
 	}
 	return nil
 }
@@ -132,11 +148,12 @@ func readSizedArray(r io.Reader, size any, data *[]byte) error {
 	if err := binary.Read(r, binary.LittleEndian, size); err != nil {
 		return fmt.Errorf("failed to read array size as %T: %w", size, err)
 	}
-	result, err := makeSized[byte](size)
+	n, err := sizeValue(size)
 	if err != nil {
 		return err
 	}
-	if _, err := r.Read(result); err != nil {
+	result, err := readExactly(r, n)
+	if err != nil {
 		return err
 	}
 	*data = result
